@@ -17,8 +17,10 @@ from concurrent.futures import ThreadPoolExecutor
 
 VERIF = os.path.dirname(os.path.dirname(os.path.abspath(__file__)))
 REPO = os.environ.get("VP_REPO", "/repo")
-WORK = os.path.join(VERIF, ".work")
-EVID = os.path.join(VERIF, "evidence")
+# scratch and evidence locations can be redirected (seed evaluation runs against a patched scratch tree and must
+# not overwrite the evidence of /repo)
+WORK = os.environ.get("VP_WORK", os.path.join(VERIF, ".work"))
+EVID = os.environ.get("VP_EVID", os.path.join(VERIF, "evidence"))
 GUARD = "HWLOC_VERIF"
 
 # translation units of libhwloc as configured for this platform (native replay links all of them
